@@ -213,6 +213,7 @@ def run_chain(imp, chain, dump):
     widths = []
     obj = imp
     geom = None
+    k = None
     try:
         for op in chain:
             k = op[0]
@@ -234,8 +235,8 @@ def run_chain(imp, chain, dump):
             elif k == 'frame':
                 return ('frame', frame_rows(obj.to_frame(), widths))
     except Exception as e:    # noqa: any exception of the importer is an observation
-        return ('error', '%s: %s' % (type(e).__name__, str(e)[:200]))
-    return ('error', 'chain does not end in to_frame')
+        return ('error', '%s: %s' % (type(e).__name__, str(e)[:200]), k)
+    return ('error', 'chain does not end in to_frame', None)
 
 
 def run_scenario(scn, workdir, tag='s'):
@@ -566,9 +567,13 @@ def check_property(scn, obs):
             continue
         filt = any(o[0] in ('fnode', 'felem') for o in ch)
         if r[0] == 'error':
-            out.append(('filtering by a stored set raises' if filt else 'import of exported data raises', {'chain': ch, 'error': r[1]}))
+            # the call of the chain that raised decides what failed: the set filter or the reading of exported data
+            at = r[2] if len(r) > 2 else None
+            out.append(('filtering by a stored set raises' if at in ('fnode', 'felem') else 'import of exported data raises',
+                        {'chain': ch, 'error': r[1], 'raised_in': at}))
         elif not frames_equal(exp, r[1]):
-            out.append(('filtering by a stored set returns other rows' if filt else 'round trip returns a different frame',
+            same_rows = [(a[0], a[1]) for a in exp] == [(b[0], b[1]) for b in r[1]]
+            out.append(('filtering by a stored set returns other rows' if (filt and not same_rows) else 'round trip returns a different frame',
                         {'chain': ch, 'difference': frame_diff(exp, r[1]), 'expected_head': exp[:6], 'got_head': r[1][:6]}))
     exported = {op['name'] for op, st in zip(scn['ops'], obs['statuses']) if st == 0 and op['op'] == 'geom'}
     names = {}
